@@ -393,4 +393,45 @@ Proof.
   - exact F.
 Qed.
 
+(* a changed value really differs, for every values_changed entry that the encoded run did not
+   manufacture from an addition and a removal (finding K17 concerns those) *)
+Theorem orun_changed_differ t1 t2 :
+  thr_num c <= thr_den c -> owf t1 = true -> owf t2 = true ->
+  forall e, In e (fst (diff hatom udiff ops nopaths nopaths c (enc t1) (enc t2) [] [])) -> ekind e = KValue ->
+    In (dec_entry e) (fst (orun hatom udiff ops c t1 t2)) /\
+    forall a b, oet1 (dec_entry e) = Some a -> oet2 (dec_entry e) = Some b -> opy_eqv a b = false.
+Proof.
+  intros Hthr W1 W2 e He K.
+  pose proof (enc_wf t1 W1) as V1. pose proof (enc_wf t2 W2) as V2.
+  split.
+  - unfold orun. cbn [fst]. apply in_map. unfold tagfix. apply in_or_app. left. apply filter_In. split.
+    + unfold run_diff. destruct (diff hatom udiff ops nopaths nopaths c (enc t1) (enc t2) [] []) as [es rec]. cbn [fst] in *.
+      unfold mutual. apply in_flat_map. exists e. split; [exact He|]. rewrite K. left. reflexivity.
+    + unfold class_split. rewrite K. reflexivity.
+  - pose proof (diff_faithful hatom udiff ops nopaths nopaths c (enc t1) (enc t2) Hthr (enc t1) (enc t2) [] [] eq_refl V1 V2 eq_refl eq_refl) as HF.
+    pose proof (diff_dict_level hatom udiff ops nopaths nopaths c (enc t1) (enc t2) (enc t1) (enc t2) [] V1 V2 eq_refl eq_refl) as HL.
+    eapply Forall_forall in HF; [|exact He]. eapply Forall_forall in HL; [|exact He].
+    unfold faithful in HF. unfold dict_level in HL. rewrite K in HF, HL.
+    destruct HF as (a0 & b0 & E1 & E2 & R1 & R2 & NE). specialize (NE eq_refl).
+    destruct (proj1 (resolve_enc_sound _) t1 _ W1 R1) as (x1 & O1 & Wx1 & H1).
+    destruct (proj1 (resolve_enc_sound _) t2 _ W2 R2) as (x2 & O2 & Wx2 & H2).
+    intros a b Ea Eb. rewrite dec_entry_eq in Ea, Eb. cbv zeta in Ea, Eb. cbn [oet1 oet2] in Ea, Eb.
+    rewrite E1 in Ea. rewrite E2 in Eb. cbn [option_map] in Ea, Eb.
+    rewrite (reached_wrap _ _ _ Wx1 H1) in Ea. rewrite (reached_wrap _ _ _ Wx2 H2) in Eb.
+    inversion Ea; subst a. inversion Eb; subst b. clear Ea Eb.
+    destruct (opy_eqv x1 x2) eqn:EQ; [exfalso|reflexivity].
+    assert (X : py_eqv a0 b0 = true); [|congruence].
+    destruct HL as [SP|(x & y & A1 & A2)].
+    + rewrite <- SP in H2. destruct (snd (dps None (ep1 e))) as [cls|]; cbn in H1, H2.
+      * destruct H1 as (at1 & -> & ->), H2 as (at2 & -> & ->).
+        pose proof (opy_eqv_enc _ _ EQ) as PE. rewrite !enc_obj, py_eqv_dict in PE.
+        apply andb_true_iff in PE as [_ PE]. cbn [dict_go assoc] in PE. rewrite py_eq_otag, pystr_eqb_refl in PE.
+        apply andb_true_iff in PE as [PE _]. exact PE.
+      * subst a0 b0. apply opy_eqv_enc. exact EQ.
+    + rewrite E1 in A1. rewrite E2 in A2. inversion A1; subst a0. inversion A2; subst b0.
+      destruct (snd (dps None (ep1 e))); cbn in H1; [destruct H1 as (? & _ & H1); discriminate H1|].
+      destruct (snd (dps None (ep2 e))); cbn in H2; [destruct H2 as (? & _ & H2); discriminate H2|].
+      rewrite H1, H2. apply opy_eqv_enc. exact EQ.
+Qed.
+
 End Run.
